@@ -840,4 +840,213 @@ theorem rule_lenprefix (E : Env) (hE : E.lenprefixLeak = false) (k : OK ρ) (n f
             · simp [hidx, hci]
           | _ => simp [hidx]
 
+/-! #### RULE_SPLIT (nested loops)
+
+locals: pointer 0 = text, 1 = saved_end, 2 = chunk_start, 3 = chunk_end; capture state 0 = cs of the current chunk -/
+
+/-- one step of the separator search -/
+def FindBody (k : OK ρ) (sep : ρ) (body : Loc → St → Except Err Out) : Prop :=
+  ∀ (L : Loc) (s : St) (pos : Nat), L.ptr 0 = some pos →
+    match k sep s pos with
+    | .error e => body L s = .error e
+    | .ok (none, s1) => ∃ L1, body L s = .ok (.cont L1 (capLoad s1 (L.cs 0))) ∧ L1.ptr 0 = some (pos + 1) ∧ L1.ptr 3 = some pos ∧
+        L1.ptr 1 = L.ptr 1 ∧ L1.ptr 2 = L.ptr 2 ∧ L1.cs 0 = L.cs 0
+    | .ok (some c, s1) => ∃ L1, body L s = .ok (.brk L1 (capLoad s1 (L.cs 0))) ∧ L1.ptr 0 = some c ∧ L1.ptr 3 = some pos ∧
+        L1.ptr 1 = L.ptr 1 ∧ L1.ptr 2 = L.ptr 2 ∧ L1.cs 0 = L.cs 0
+
+theorem find_loop (k : OK ρ) (sep : ρ) (cs : CapState) (se : Nat) (cond : Loc → St → Bool) (body : Loc → St → Except Err Out)
+    (hcond : ∀ L s pos, L.ptr 0 = some pos → L.ptr 1 = some se → cond L s = decide (pos ≤ se)) (hbody : FindBody k sep body) :
+    ∀ (m f : Nat) (L : Loc) (s : St) (pos ce : Nat), L.ptr 0 = some pos → L.ptr 1 = some se → (m = 0 → L.ptr 3 = some ce) →
+      m = se + 1 - pos → m + 1 ≤ f → L.cs 0 = cs →
+      (∃ e, Op.splitFind k sep cs m s ce pos = .error e ∧ loopN cond body f L s = .error e) ∨
+      (∃ ce' p' s' L', Op.splitFind k sep cs m s ce pos = .ok (ce', p', s') ∧ loopN cond body f L s = .ok (.cont L' s') ∧
+        L'.ptr 0 = some p' ∧ L'.ptr 3 = some ce' ∧ L'.ptr 1 = some se ∧ L'.ptr 2 = L.ptr 2 ∧ L'.cs 0 = cs) := by
+  intro m
+  induction m with
+  | zero =>
+    intro f L s pos ce hp h1 h3 hm hf hc
+    obtain ⟨f', rfl⟩ : ∃ f', f = f' + 1 := ⟨f - 1, by omega⟩
+    have hgt : ¬ pos ≤ se := by omega
+    right
+    exact ⟨ce, pos, s, L, by simp [Op.splitFind], by simp [loopN, hcond L s pos hp h1, hgt], hp, h3 rfl, h1, rfl, hc⟩
+  | succ m ih =>
+    intro f L s pos ce hp h1 h3 hm hf hc
+    obtain ⟨f', rfl⟩ : ∃ f', f = f' + 1 := ⟨f - 1, by omega⟩
+    have hle : pos ≤ se := by omega
+    simp only [Op.splitFind, loopN, hcond L s pos hp h1, hle, decide_true, if_true]
+    have hb := hbody L s pos hp
+    cases hk : k sep s pos with
+    | error e =>
+      simp only [hk] at hb
+      left; exact ⟨e, by simp [bind, Except.bind], by simp [hb, bind, Except.bind]⟩
+    | ok x =>
+      obtain ⟨res, s1⟩ := x
+      cases res with
+      | none =>
+        simp only [hk] at hb
+        obtain ⟨L1, g0, gp, g3, g1, g2, gc⟩ := hb
+        rw [hc] at g0
+        rcases ih f' L1 (capLoad s1 cs) (pos + 1) pos gp (g1.trans h1) (fun _ => g3) (by omega) (by omega) (gc.trans hc) with
+          ⟨e, e1, e2⟩ | ⟨ce', p', s', L', e1, e2, e3, e4, e5, e6, e7⟩
+        · left; exact ⟨e, by simp [bind, Except.bind, e1], by simp [g0, bind, Except.bind, e2]⟩
+        · right
+          exact ⟨ce', p', s', L', by simp [bind, Except.bind, e1], by simp [g0, bind, Except.bind, e2], e3, e4, e5, e6.trans g2, e7⟩
+      | some c =>
+        simp only [hk] at hb
+        obtain ⟨L1, g0, gp, g3, g1, g2, gc⟩ := hb
+        rw [hc] at g0
+        right
+        exact ⟨pos, c, capLoad s1 cs, L1, by simp [bind, Except.bind], by simp [g0, bind, Except.bind], gp, g3, g1.trans h1, g2,
+          gc.trans hc⟩
+
+theorem find_body (E : Env) (k : OK ρ) (sep r : ρ) (fuel : Nat) :
+    FindBody k sep (fun L s => execL E k (ops [(1, sep), (2, r)] []) fuel Gen.PegSkel.RULE_SPLIT_body0 L s) := by
+  intro L s pos hp
+  simp only [Gen.PegSkel.RULE_SPLIT_body0, execL, execStmt, evalCond, ops]
+  cases hk : k sep s pos with
+  | error e => simp [hk, hp, opsRule, upd, bind, Except.bind]
+  | ok x =>
+    obtain ⟨res, s1⟩ := x
+    cases res <;> simp [hk, hp, opsRule, bind, Except.bind, upd]
+
+/-- one chunk of the model's `splitLoop`: the final result of the instruction, or the state and position of the next chunk -/
+def splitIter (k : OK ρ) (sep sub : ρ) (se : Nat) (s : St) (cstart pos : Nat) : Except Err ((Option Nat × St) ⊕ (St × Nat)) := do
+  let cs := capSave s
+  let s0 ← down1 s
+  let (ce, p', s1) ← Op.splitFind k sep cs (se + 1 - pos) s0 pos pos
+  let s4 ← down1 { up1 s1 with textEnd := ce }
+  let (res, s5) ← k sub s4 cstart
+  let s6 : St := { up1 s5 with textEnd := se }
+  match res with
+  | none => .ok (.inl (none, s6))
+  | some _ => if p' == cstart then .ok (.inl (none, s6)) else .ok (.inr (s6, p'))
+
+theorem splitLoop_succ (k : OK ρ) (sep sub : ρ) (se n : Nat) (s : St) (cstart pos : Nat) :
+    Op.splitLoop k sep sub se (n + 1) s cstart pos =
+      if pos ≤ se then
+        (match splitIter k sep sub se s cstart pos with
+          | .error e => .error e
+          | .ok (.inl r) => .ok r
+          | .ok (.inr (s6, p')) => Op.splitLoop k sep sub se n s6 p' p')
+      else .ok (some se, { s with textEnd := se }) := by
+  simp only [Op.splitLoop, splitIter]
+  by_cases h : pos ≤ se
+  · simp only [h, if_true]
+    cases down1 s with
+    | error e => simp [bind, Except.bind]
+    | ok s0 =>
+      simp only [bind, Except.bind]
+      cases Op.splitFind k sep (capSave s) (se + 1 - pos) s0 pos pos with
+      | error e => simp
+      | ok x =>
+        obtain ⟨ce, p', s1⟩ := x
+        simp only
+        cases down1 { up1 s1 with textEnd := ce } with
+        | error e => simp
+        | ok s4 =>
+          simp only
+          cases k sub s4 cstart with
+          | error e => simp
+          | ok y =>
+            obtain ⟨res, s5⟩ := y
+            cases res with
+            | none => simp
+            | some q => by_cases hq : (p' == cstart) = true <;> simp [hq]
+  · simp [h]
+
+/-- the outer loop body (one chunk) -/
+def SplitBody (k : OK ρ) (sep sub : ρ) (se : Nat) (body : Loc → St → Except Err Out) : Prop :=
+  ∀ (L : Loc) (s : St) (pos cstart : Nat), L.ptr 0 = some pos → L.ptr 1 = some se → L.ptr 2 = some cstart → pos ≤ se →
+    match splitIter k sep sub se s cstart pos with
+    | .error e => body L s = .error e
+    | .ok (.inl r) => body L s = .ok (.ret r)
+    | .ok (.inr (s6, p')) => ∃ L1, body L s = .ok (.cont L1 s6) ∧ L1.ptr 0 = some p' ∧ L1.ptr 1 = some se ∧ L1.ptr 2 = some p'
+
+theorem split_loop (k : OK ρ) (sep sub : ρ) (se : Nat) (cond : Loc → St → Bool) (body rest : Loc → St → Except Err Out)
+    (hcond : ∀ L s pos, L.ptr 0 = some pos → L.ptr 1 = some se → cond L s = decide (pos ≤ se)) (hbody : SplitBody k sep sub se body)
+    (hrest : ∀ L s, L.ptr 1 = some se → rest L s = .ok (.ret (some se, { s with textEnd := se }))) :
+    ∀ (n : Nat) (L : Loc) (s : St) (pos cstart : Nat), L.ptr 0 = some pos → L.ptr 1 = some se → L.ptr 2 = some cstart →
+      (match loopN cond body n L s with
+        | .error e => (Except.error e : Except Err Out)
+        | .ok (.cont L' s') => rest L' s'
+        | .ok (.brk _ _) => .error .badop
+        | .ok (.ret x) => .ok (.ret x)) =
+      (match Op.splitLoop k sep sub se n s cstart pos with | .error e => .error e | .ok x => .ok (.ret x)) := by
+  intro n
+  induction n with
+  | zero => intro L s pos cstart _ _ _; simp [loopN, Op.splitLoop]
+  | succ n ih =>
+    intro L s pos cstart hp h1 h2
+    rw [splitLoop_succ]
+    simp only [loopN, hcond L s pos hp h1]
+    by_cases hle : pos ≤ se
+    · simp only [hle, decide_true, if_true]
+      have hb := hbody L s pos cstart hp h1 h2 hle
+      cases hit : splitIter k sep sub se s cstart pos with
+      | error e => simp only [hit] at hb; simp [hb, bind, Except.bind]
+      | ok x =>
+        cases x with
+        | inl r => simp only [hit] at hb; simp [hb, bind, Except.bind]
+        | inr y =>
+          obtain ⟨s6, p'⟩ := y
+          simp only [hit] at hb
+          obtain ⟨L1, g0, gp, g1, g2⟩ := hb
+          have := ih L1 s6 p' p' gp g1 g2
+          simp only [g0, bind, Except.bind] at this ⊢
+          exact this
+    · simp [hle, hrest L s h1]
+
+theorem split_body (E : Env) (k : OK ρ) (sep r : ρ) (se fuel : Nat) (hf : se + 2 ≤ fuel) :
+    SplitBody k sep r se (fun L s => execL E k (ops [(1, sep), (2, r)] []) fuel Gen.PegSkel.RULE_SPLIT_body1 L s) := by
+  intro L s pos cstart hp h1 h2 hle
+  simp only [splitIter, Gen.PegSkel.RULE_SPLIT_body1, execL, execStmt]
+  cases hd : down1 s with
+  | error e => simp [hd, bind, Except.bind]
+  | ok s0 =>
+    simp only [hd, bind, Except.bind]
+    rcases find_loop k sep (capSave s) se
+        (fun L s => evalCond E (ops [(1, sep), (2, r)] []) L s (.ptrLe 0 1))
+        (fun L s => execL E k (ops [(1, sep), (2, r)] []) fuel Gen.PegSkel.RULE_SPLIT_body0 L s)
+        (fun L s pos hp h1 => by simp [evalCond, hp, h1]) (find_body E k sep r fuel)
+        (se + 1 - pos) fuel { L with cs := upd L.cs 0 (capSave s) } s0 pos pos hp h1 (fun h => by omega) rfl (by omega)
+        (by simp [upd]) with
+      ⟨e, e1, e2⟩ | ⟨ce', p', s', L', e1, e2, e3, e4, e5, e6, e7⟩
+    · rw [e2]; simp [e1]
+    · rw [e2]
+      have e6' : L'.ptr 2 = some cstart := e6.trans h2
+      simp only [e1, Gen.PegSkel.RULE_SPLIT_rest0, execL, execStmt, evalCond, ops, e3, e4, e5, e6']
+      cases hd4 : down1 { up1 s' with textEnd := ce' } with
+      | error e => simp [hd4, e3, e4, e5, e6', bind, Except.bind]
+      | ok s4 =>
+        simp [hd4, e3, e4, e5, e6', bind, Except.bind, opsRule, upd]
+        cases hk : k r s4 cstart with
+        | error e => simp [hk]
+        | ok y =>
+          obtain ⟨res, s5⟩ := y
+          cases res with
+          | none => simp [hk, upd, e3, e4, e5, e6']
+          | some q =>
+            by_cases hq : p' = cstart
+            · simp [hk, upd, e3, e4, e5, e6', hq]
+            · simp [hk, upd, e3, e4, e5, e6', hq]
+
+/-- RULE_SPLIT: chunks between separators; the separator is searched position by position (its captures dropped), the
+    sub-pattern runs from the chunk start inside the window that ends where the separator begins, the window is put back after
+    every chunk and before the final return; an empty step (no forward progress) or a failing chunk fails the whole rule.
+    `n` (the model's loop fuel) also bounds the IR's separator search, hence `s.textEnd + 2 ≤ n`. -/
+theorem rule_split (E : Env) (k : OK ρ) (n : Nat) (sep r : ρ) (s : St) (pos : Nat) (hn : s.textEnd + 2 ≤ n) :
+    runL E k (ops [(1, sep), (2, r)] []) n Gen.PegSkel.RULE_SPLIT s pos = Op.step E k n (.split sep r) s pos := by
+  simp only [runL, Gen.PegSkel.RULE_SPLIT, execL, execStmt, Loc.init, Op.step, bind, Except.bind]
+  have key := split_loop k sep r s.textEnd
+    (fun L s => evalCond E (ops [(1, sep), (2, r)] []) L s (.ptrLe 0 1))
+    (fun L s => execL E k (ops [(1, sep), (2, r)] []) n Gen.PegSkel.RULE_SPLIT_body1 L s)
+    (fun L s => execL E k (ops [(1, sep), (2, r)] []) n Gen.PegSkel.RULE_SPLIT_rest1 L s)
+    (fun L s pos hp h1 => by simp [evalCond, hp, h1]) (split_body E k sep r s.textEnd n hn)
+    (fun L s h1 => by simp [Gen.PegSkel.RULE_SPLIT_rest1, execL, execStmt, h1, upd, bind, Except.bind])
+    n
+  generalize hL0 : Loc.mk _ _ _ _ _ = L0
+  have hk2 := key L0 s pos pos (by rw [← hL0]; simp [upd]) (by rw [← hL0]; simp [upd]) (by rw [← hL0]; simp [upd])
+  generalize loopN _ _ n L0 s = X at hk2 ⊢
+  cases hc : Op.splitLoop k sep r s.textEnd n s pos pos <;> rcases X with e | (⟨L', s'⟩ | ⟨L', s'⟩ | x) <;> simp_all
+
 end JanetModel.Peg.TieSkel
